@@ -9,6 +9,7 @@ CHECKS = {
  "C05": ("Send sequence counter over all 255 values x 2 nodes incl. wrap and reset; two (three) virtual threads running the real send functions interleaved at lock acquisitions (stack-shaped schedules): wire order == sequence order per node.", "DESIGN 4/C05"),
  "C06": ("Real dispatcher on one message of every type code, debug and normal mode, against routing tables parsed from README.md at run time; field extraction per message layout; ownership via double-free and leak checks; queue bound/drop-oldest/FIFO/once-only at the literal bound 128 and, with full read-back, at scaled bounds 2-4.", "DESIGN 4/C06"),
  "C18": ("One generated harness per public bidib_send_* (prototypes and documented ranges parsed from include/lowlevel/*.h at run time): every scalar parameter over its full range, payload sizes 0..max+1: 0 or 1 message, type < 0x80, destination, data == specified encoding, length byte <= 127 and consistent, rejected iff outside the documented range, every byte determined by the arguments (double-call), no out-of-bounds access to caller buffers.", "DESIGN 4/C18"),
+ "C07": ("Per-message equality of the real state setters with a reference transformer (written from the BiDiB message layouts: current-code table, DCC speed byte, function groups, time bytes, diagnostic (key,value) pairs in any order) on an ARBITRARY pre-state of a built configuration, including the frame condition (everything not named is unchanged); conversions as total functions over all 256 inputs. Arbitrary pre-state makes the per-message result inductive over histories of any length.", "DESIGN 4/C07"),
  "C09": ("Every high-level command (switch_point, set_signal, set_peripheral, train speed / calibrated / emergency stop, train peripheral, booster, track output state (_all), request reverser) over a built board+train with symbolic configuration values and argument ids given as arbitrary <=2-character strings: return value, exactly the prescribed captured message(s) with destination/encoding, optimistic state delta, nothing on return 1, locks released.", "DESIGN 4/C09"),
  "C12": ("CBMC pointer/bounds/overflow checks over the three stages of the uplink path with ARBITRARY inputs: every stream of <=8 bytes (+ scaled read buffer for the overflow edge), every packet of <=10 bytes through bidib_split_packet, every exact-size message of 0..9 data bytes of every type through the dispatcher; termination via unwinding assertions.", "DESIGN 4/C12"),
  "C03": ("Inductive step of the per-node budget machine (bidib_node_try_send / bidib_node_state_update incl. expiry and release of held messages) from an arbitrary valid node state with <=3 outstanding and <=2 held messages, all request/answer types, clock values; bounded histories from the real initial state.", "DESIGN 4/C03"),
